@@ -58,6 +58,14 @@ Theorem c18_gen_endpoint_name_verified : gen_server_name_set = false /\ gen_max_
 Proof. exact gen_endpoint_name_verified. Qed.
 Print Assumptions c18_gen_endpoint_name_verified.
 
+(** Every field the configuration sets is one the decision model interprets
+    (or one without influence on authentication): in particular the clock the
+    chain is verified against ([Time]) and the randomness source are the
+    library's own. *)
+Theorem c18_gen_no_unmodelled_field : gen_unmodelled_config_keys = [].
+Proof. exact eq_refl. Qed.
+Print Assumptions c18_gen_no_unmodelled_field.
+
 Theorem c18_gen_secure : secure_facts tls_facts_gen = true.
 Proof. exact gen_secure. Qed.
 Print Assumptions c18_gen_secure.
